@@ -151,8 +151,10 @@ func TestC06(t *testing.T) {
 	}
 	enum("enum-full", gen.FullAlphabet(), fullLen)
 	enum("enum-reduced", gen.ReducedAlphabet(), redLen)
-	enum("enum-bool", gen.BoolAlphabet(), focusLen+1)
-	enum("enum-range", gen.RangeAlphabet(), focusLen+map[bool]int{false: 0, true: 1}[cfg.Thorough()])
+	// thorough: length 8 over the 10-token focus alphabets (2 x 10^8 cases each); length 9
+	// took the 16 shards close to the one-hour test timeout
+	enum("enum-bool", gen.BoolAlphabet(), focusLen+map[bool]int{false: 1, true: 0}[cfg.Thorough()])
+	enum("enum-range", gen.RangeAlphabet(), focusLen)
 	enum("enum-unary", gen.UnaryAlphabet(), focusLen)
 	// a complete range takes seven tokens, more than the enumerations above reach in the
 	// quick tier
